@@ -391,6 +391,14 @@ func (w *world) upload(path string, it *item, phase string) error {
 	present := w.indexed(it)
 
 	out := w.doUpload(path, it, chunk)
+	if out.Transport {
+		// no answer of the server was observed (transport error, the harness's own watchdog,
+		// connection lost): neither an admission nor a refusal, and what the request did to
+		// the state is unknown: the history ends here, inconclusive - never a verdict
+		w.r.Count("unobserved-transport." + path)
+		w.logf("%s %s %s/%d: %s (%s): not judged, history abandoned", phase, path, it.key()[:12], N, out.Status, out.Note)
+		return fmt.Errorf("%w: %s answered %q (%s): transport error / watchdog, not a verdict", errInconclusive, path, out.Status, out.Note)
+	}
 	if phase == "fill" {
 		// set-up with the remover running: executed, not measured, not judged here
 		// (in the no-option replay it still must not be refused)
@@ -560,6 +568,10 @@ func (w *world) batchPair(a, b *item, phase string) error {
 	after := w.cur
 	w.r.Eval()
 	ex := map[string]any{"path": pathBatchPair, "phase": phase, "items": []string{a.key(), b.key()}, "sizes": []int64{a.size(), b.size()}, "before": before.summary(), "after": after.summary()}
+	if err != nil && (transportCode(lib.Code(err)) || ctx.Err() != nil) {
+		w.r.Count("unobserved-transport." + pathBatchPair)
+		return fmt.Errorf("%w: %s answered %v: transport error / watchdog, not a verdict", errInconclusive, pathBatchPair, err)
+	}
 	if err != nil || len(resp.Responses) != 2 {
 		w.r.Count("status.batch-pair.rpc-error")
 		w.violation("C17:batch-pair:rpc-failed", fmt.Sprintf("BatchUpdateBlobs with one over-limit and one fitting blob failed as a whole: %v", err), ex)
@@ -724,6 +736,11 @@ func (w *world) proxyExistence() {
 	ctx, cancel := lib.Ctx()
 	defer cancel()
 	miss, err := w.srv.FindMissing(ctx, it.digest())
+	if err != nil && (transportCode(lib.Code(err)) || ctx.Err() != nil) {
+		w.r.Count("read.findmissing-proxy.unobserved-transport")
+		w.px.Delete(cache.CAS, it.Hash)
+		return
+	}
 	w.r.Eval()
 	if err != nil || len(miss) != 0 {
 		w.r.Count("read.findmissing-proxy.FAILED")
